@@ -6,5 +6,6 @@ export CARGO_NET_OFFLINE=true
 mkdir -p runs evidence replays
 cp /repo/Cargo.lock harness/Cargo.lock
 (cd harness && cargo build --offline --profile verif 2>&1 | tail -n 3)
+(cd harness && cargo build --offline --profile verifwrap 2>&1 | tail -n 3)
 test -x harness/target/verif/rivia-verif
 echo "setup ok"
